@@ -216,6 +216,14 @@ func TestVerifC42Src(t *testing.T) {
 		extra := vPick(r, extras)
 		emit(tmpl, ms, extra, fam, hostile)
 	}
+
+	// life cycle of the static source handler: starts with and without a query in every order, stops, reloads that
+	// change the groups, failures and retries, on a real Handler (zz_verif_c42life_test.go)
+	nl := n / 4
+	if nl > 3000 {
+		nl = 3000
+	}
+	vC42SourceLife(vNewRand(vSeed()+4242), out, nl)
 }
 
 type vC42W struct {
